@@ -270,6 +270,18 @@ pub fn run(ctx: &Ctx) -> i32 {
             check_case(ctx, st, &cases[i].0, cases[i].1);
         });
     }
+    // runs of more than 1000 repeats whose count is just above a multiple of 1000
+    {
+        let cases: Vec<(Vec<String>, Settings)> = if ctx.thorough {
+            vec![(vec!["a".repeat(1002)], Settings::with(REP, 2, 1)), (vec!["a".repeat(1005)], Settings::with(REP, 6, 1)), (vec!["ab".repeat(1003)], Settings::with(REP, 3, 2)), (vec!["a".repeat(2001), "b".to_string()], Settings::with(REP, 1, 1))]
+        } else {
+            vec![(vec!["a".repeat(1002)], Settings::with(REP, 2, 1)), (vec!["a".repeat(1005)], Settings::with(REP, 6, 1))]
+        };
+        par_for(&ctx.run, cases.len(), |i, st| {
+            st.count("runs_of_more_than_1000");
+            check_case(ctx, st, &cases[i].0, cases[i].1);
+        });
+    }
     // thresholds set before conversion is enabled, with a build in between
     {
         let n = if ctx.thorough { 20_000 } else { 1_500 };
